@@ -5,6 +5,7 @@ import (
 	"fmt"
 	"io"
 
+	"github.com/splunk/stef/go/otel/otelstef"
 	"github.com/splunk/stef/go/pkg"
 
 	"verif/harness/internal/recgen"
@@ -47,6 +48,7 @@ func readAll(root *rootSpec, src io.Reader, maxReads int) (o readOutcome) {
 func runCutsMode() {
 	defer manyNamesFrameCase("C05")
 	defer arrayRegrowFrameCase("C05")
+	defer eagerEndCases("C05")
 	r := rng.FromEnv(105)
 	n := scale(64)
 	for i := 0; i < n; i++ {
@@ -185,6 +187,104 @@ func runCutsMode() {
 		}
 		if i%16 == 3 {
 			sample("case=%s root=%s opts=%s bytes=%d frames=%d records=%d offsets=%d", name, root.name, o, len(res.stream), len(ps.frames)-1, len(res.truths), len(offsets))
+		}
+	}
+}
+
+// eagerSrc hands out its data as asked and reports its terminal error TOGETHER with the last bytes
+// (io.Reader allows n > 0 with a non-nil error; a socket that is closed right after the last
+// frame does that).
+type eagerSrc struct {
+	data []byte
+	err  error
+}
+
+func (s *eagerSrc) Read(p []byte) (int, error) {
+	n := copy(p, s.data)
+	s.data = s.data[n:]
+	if len(s.data) == 0 {
+		return n, s.err
+	}
+	return n, nil
+}
+
+// eagerEndCases (C05): frames whose LAST column is larger than the reader's 64 KiB buffer (a bytes
+// attribute of about 280 KB: such a read goes to the source unbuffered) and prefixes that end
+// exactly at a frame end, read from a source that reports its end together with the last bytes:
+// the records of every complete frame must still come out - as from a bytes.Reader.
+func eagerEndCases(prop string) {
+	for ci, comp := range []pkg.Compression{pkg.CompressionNone, pkg.CompressionZstd} {
+		name := fmt.Sprintf("cut-eager-end-c%d", ci)
+		note("case %s", name)
+		cw := &chunkLog{}
+		w, err := otelstef.NewSpansWriter(cw, pkg.WriterOptions{Compression: comp})
+		if err != nil {
+			propFail("%s eager-end-writer case=%s %v", prop, name, err)
+			continue
+		}
+		var recsAfter []int // records written when each chunk ended
+		total := 0
+		for len(recsAfter) < len(cw.ends) {
+			recsAfter = append(recsAfter, 0) // the header chunks
+		}
+		for f := 0; f < 4; f++ {
+			for k := 0; k <= f%2; k++ {
+				big := make([]byte, 250_000+37_000*f+k)
+				for x := range big {
+					big[x] = byte(x*7 + f + k)
+				}
+				at := w.Record.Span().Attributes()
+				at.EnsureLen(1)
+				at.SetKey(0, "blob")
+				at.Value(0).SetBytes(pkg.Bytes(big))
+				w.Record.Span().SetStartTimeUnixNano(uint64(total))
+				for len(recsAfter) < len(cw.ends) {
+					recsAfter = append(recsAfter, total) // (header chunks written lazily, frames closed by a limit)
+				}
+				if err := w.Write(); err != nil {
+					propFail("%s eager-end-write case=%s %v", prop, name, err)
+					return
+				}
+				total++
+			}
+			w.Flush()
+			for len(recsAfter) < len(cw.ends) {
+				recsAfter = append(recsAfter, total)
+			}
+		}
+		stream := cw.buf.Bytes()
+		count := func(src io.Reader) (n int, rerr error, pan string) {
+			defer func() {
+				if e := recover(); e != nil {
+					pan = fmt.Sprint(e)
+				}
+			}()
+			rd, err := otelstef.NewSpansReader(src)
+			if err != nil {
+				return 0, err, ""
+			}
+			for {
+				if err := rd.Read(pkg.ReadOptions{}); err != nil {
+					return n, err, ""
+				}
+				n++
+			}
+		}
+		for e, end := range cw.ends {
+			if recsAfter[e] == 0 {
+				continue
+			}
+			for _, terr := range []error{io.EOF, io.ErrClosedPipe} {
+				stats["eager-end-reads"]++
+				note("case %s-%d-%d", name, end, len(terr.Error()))
+				note("nontrivial %x", uint64(ci)<<40|uint64(end)<<8|uint64(len(terr.Error())))
+				want, _, _ := count(bytes.NewReader(stream[:end]))
+				got, gerr, pan := count(&eagerSrc{data: append([]byte(nil), stream[:end]...), err: terr})
+				if pan != "" || got != want || want != recsAfter[e] {
+					propFail("%s eager-end-records-lost case=%s compression=%d: the first %d bytes of the stream are %d complete chunks holding %d records (last column of each frame: a bytes value of 250-360 KB); a bytes.Reader source gives %d records; a source that returns %v together with the last bytes gives %d records then %v (panic %q)", prop, name, comp, end, e+1, recsAfter[e], want, terr, got, gerr, pan)
+					return
+				}
+			}
 		}
 	}
 }
